@@ -40,6 +40,9 @@ def scenario(rng):
         scn["driver"] = rng.choice(["sync", "inloop"])
     if rng.random() < 0.6:
         new["stored"] = rng.choice(ids)
+        # what is stored may be a member of a mixed-in enum equal to the state's raw value (IntEnum, (str, Enum)): a valid
+        # stored state like any other - and "untouched" means the very object stays
+        new["stored_alias"] = rng.random() < 0.5
     if rng.random() < 0.3:
         new["opt"]["start"] = rng.choice(ids)
     # nested sends preferably from enter callbacks (they run during activation)
